@@ -281,10 +281,18 @@ pub async fn run_writer(cfg: RunCfg) -> RunResult {
     let knobs = LanceKnobs::default();
     let party = Arc::new(Party::new(&w, 1, knobs.clone()));
     let reader_party = Arc::new(Party::new(&w, 2, knobs.clone()));
+    {
+        // half of the runs use a store whose multipart complete does not validate the part list
+        let lenient = rng.chance(0.5);
+        w.lock().knobs.mp_validates_parts = !lenient;
+        res.knobs.insert("multipart_complete_validates_parts".into(), (!lenient).to_string());
+    }
     let store = party.lance_store(URI);
     let dest = "io/out.bin";
     // chunk plan: total 0 .. ~17 MiB (multipart threshold is 5 MiB, 10 parts in flight)
-    let total_target: usize = match rng.below(8) {
+    // with faults the interesting case is several part uploads in flight: bias to multipart sizes
+    let size_class = if faults_on && rng.chance(0.5) { 5 + rng.below(3) } else { rng.below(8) };
+    let total_target: usize = match size_class {
         0 => 0,
         1 => rng.range(1, 100) as usize,
         2 => rng.range(1000, 100_000) as usize,
@@ -365,10 +373,16 @@ pub async fn run_writer(cfg: RunCfg) -> RunResult {
     let mut sc = SchedCfg { p_reorder: 0.7, p_stick: 0.0, ..Default::default() };
     if faults_on {
         sc.fault_budget = rng.range(1, 3) as u32;
-        sc.p_fault = 0.15;
-        sc.faults = vec![Decision::FailPre, Decision::ConnReset, Decision::ConnReset];
+        sc.p_fault = *rng.pick(&[0.1f64, 0.3, 0.6]);
+        sc.faults = vec![Decision::FailPre, Decision::FailPre, Decision::ConnReset];
+        if !w.lock().knobs.mp_validates_parts {
+            // stores that assemble whatever arrived (in-memory, local file) have no connection to
+            // reset; a retried part would be appended out of order there. Plain errors only.
+            sc.faults = vec![Decision::FailPre];
+        }
     }
     // custom drive loop with the visibility invariant
+    let p_burst = *rng.pick(&[0.0f64, 0.3, 0.7]);
     let mut decisions = 0u64;
     let mut h = 0u64;
     let mut budget = sc.fault_budget;
@@ -392,7 +406,16 @@ pub async fn run_writer(cfg: RunCfg) -> RunResult {
             continue;
         }
         idle = 0;
-        let p = if rng.chance(sc.p_reorder) { &parked[rng.usize(parked.len())] } else { &parked[0] };
+        // several responses may arrive before the writer is polled again
+        let burst = if rng.chance(p_burst) { rng.range(1, 4) as usize } else { 0 };
+        let mut released: Vec<u64> = Vec::new();
+        for _ in 0..=burst {
+        let avail: Vec<&crate::world::ParkedInfo> = parked.iter().filter(|p| !released.contains(&p.id)).collect();
+        if avail.is_empty() {
+            break;
+        }
+        let p = if rng.chance(sc.p_reorder) { avail[rng.usize(avail.len())] } else { avail[0] };
+        released.push(p.id);
         let mut d = Decision::Proceed;
         if budget > 0 && rng.chance(sc.p_fault) {
             let cand = *rng.pick(&sc.faults);
@@ -411,6 +434,7 @@ pub async fn run_writer(cfg: RunCfg) -> RunResult {
         h = crate::rng::mix(&[h, p.kind as u64, d as u64]);
         w.release(p.id, d);
         decisions += 1;
+        }
         tokio::time::sleep(std::time::Duration::from_millis(1)).await;
         // invariant: nothing at the destination before the final put / multipart complete was released
         if !completed_seen && w.exists(dest) {
